@@ -128,3 +128,117 @@ def obj_of(e):
                 e = strip(e)
                 changed = True
     return e
+
+
+def type_head(ty):
+    """Head ADT path of a type string: `cc::Cc<weak::X<T>>` -> `cc::Cc`; strips references."""
+    t = ty.strip()
+    while t.startswith("&"):
+        t = t[1:].lstrip()
+        if t.startswith("mut "):
+            t = t[4:]
+        if t.startswith("'"):
+            t = t.split(" ", 1)[1] if " " in t else t
+    i = t.find("<")
+    if i > 0:
+        t = t[:i]
+    return t.rstrip(":")
+
+
+def adt_of_type(F, ty):
+    from engine.facts import norm_path
+    h = norm_path(type_head(ty))
+    c = F.adts_by_path.get(h, [])
+    return c[0] if len(c) == 1 else None
+
+
+def mark_of(e):
+    """Variant name of a Mark constant expression."""
+    e = strip(e)
+    if isinstance(e, tuple) and e and e[0] == "agg" and e[1] == "adt" and "Mark::" in e[2]:
+        return e[2].rsplit("::", 1)[-1]
+    return None
+
+
+def on_cycle(S, n, exclude=("ui",)):
+    """True if node n can reach itself."""
+    seen = set()
+    stack = [s for s in S.succs(n, None, exclude)]
+    while stack:
+        x = stack.pop()
+        if x is n:
+            return True
+        if x.idx in seen:
+            continue
+        seen.add(x.idx)
+        stack.extend(S.succs(x, None, exclude))
+    return False
+
+
+def cycle_must_pass(S, H, pred, exclude=("ui", "u")):
+    """H lies on a cycle and every path from H back to H passes a node satisfying pred."""
+    if not on_cycle(S, H, exclude):
+        return False
+    seen = set()
+    stack = list(S.succs(H, None, exclude))
+    while stack:
+        x = stack.pop()
+        if x is H:
+            return False
+        if x.idx in seen or pred(x):
+            continue
+        seen.add(x.idx)
+        stack.extend(S.succs(x, None, exclude))
+    return True
+
+
+def loop_heads_applying(S, pred, exclude=("ui", "u")):
+    """Switch nodes that head a loop whose every iteration passes a node satisfying pred."""
+    cands = [n for n in S.nodes if pred(n)]
+    if not cands:
+        return []
+    heads = []
+    for n in S.nodes:
+        if n.kind == "switch" and cycle_must_pass(S, n, pred, exclude):
+            heads.append(n)
+    return heads
+
+
+def unwind_must_pass(S, U, pred, avoid_labels=()):
+    """Every path that starts with the unwind edge of node U and reaches the root's resume passes a node
+    satisfying pred. Returns (ok, n_exits_checked). Vacuous (no unwind edge) returns (True, 0)."""
+    starts = [s for (s, lab) in U.succ if lab == "u"]
+    root_resumes = [n for (n, lab) in S.resumes]
+    direct = any(n is U for (n, lab) in S.resumes if lab == "u")
+    if direct:
+        return False, 1   # unwinds straight out of the root with nothing in between
+    if not starts:
+        return True, 0
+    ok_all = True
+    fst = S.flag_state_after(U)
+    for st in starts:
+        ok, wit = S.must_pass_flags(st, fst, pred, root_resumes, exclude=("ui",), avoid_labels=avoid_labels)
+        if not ok:
+            ok_all = False
+    return ok_all, len(starts)
+
+
+def unwind_reach(S, U, avoid_labels=()):
+    """Node indices reachable through the unwind edge of U (drop flags tracked from U)."""
+    res = set()
+    fst = S.flag_state_after(U)
+    for (s, lab) in U.succ:
+        if lab == "u":
+            res |= S.reachable_flags(s, fst, exclude=("ui",), avoid_labels=avoid_labels)
+    return res
+
+
+def flag_opaque(F):
+    """Everything except the primitive counter/list/state operations is expanded."""
+    s = set()
+    for f in F.fns.values():
+        np = f.npath
+        if np.startswith((CM, WCM, ST, LL, PC, LQ)) and "{closure" not in np:
+            s.add(np)
+    s |= {"utils::cc_alloc", "utils::cc_dealloc", "utils::alloc_other", "utils::dealloc_other"}
+    return s
